@@ -224,3 +224,48 @@ def l2(r: int, c1: int, c2: int, cap: int) -> bool:
     post: _
     """
     return run("l2", _l2_body, dict(r=r, c1=c1, c2=c2, cap=cap))
+
+
+# ------------------------------------------------------------------ L3: replies larger than the client's read size
+BIG_BODY = b"".join(b"# line %04d of a long script\r\n" % i for i in range(220))           # ~6.6 kB
+BIG_LIST = b"".join(R.quote(b"script-%04d-with-a-long-name-to-fill-the-buffer" % i) + b"\r\n" for i in range(190))  # ~9.8 kB
+BIG = [
+    ("getscript", 2, R.literal(BIG_BODY) + b"\r\n" + R.status_line(b"OK", None, b"done")),
+    ("listscripts", 1, BIG_LIST + R.quote(b"the-active-one") + b" ACTIVE\r\n" + R.status_line(b"OK", None, b"done")),
+    ("getscript", 2, R.literal(BIG_BODY) + b"\r\n" + R.status_line(b"NO", b"QUOTA", BIG_BODY[:4200], "literal")),
+]
+BIG_CUTS = [0, 1, 2, 3, 4, 5, 6, 7, 8, 9, 100, 4095, 4096, 4097, 4100, 5000, 8191, 8192, 8193]
+BIG_CAPS = [None, 4096, 1000, 64]
+
+
+def _native_l3(bi, ci, capi):
+    opname, opi, reply = BIG[bi]
+    base = _run_session(opi, reply, [], None, "timeout")
+    cut = BIG_CUTS[ci]
+    got = _run_session(opi, reply, [cut, cut], BIG_CAPS[capi], "timeout")
+    if got != base:
+        what = "result" if got[0] != base[0] else ("next-operation" if got[2] != base[2] else "leftover")
+        raise Violation("C05/big-%s/%s-depends-on-segmentation" % (opname, what),
+                        {"operation": opname, "reply_bytes": len(reply), "cut": cut, "recv_cap": BIG_CAPS[capi],
+                         "single_segment": repr(base)[:300], "segmented": repr(got)[:300]})
+    if base[0][0] != "ret":
+        raise Violation("C05/big-%s/not-readable-at-all" % opname, {"single_segment": repr(base)[:300]})
+    return {"operation": opname, "reply_bytes": len(reply), "cut": cut, "recv_cap": BIG_CAPS[capi]}
+
+
+def _l3_body(info, b, c, cap):
+    bi = P.decode(b, len(BIG))
+    ci = P.decode(c, len(BIG_CUTS))
+    pi = P.decode(cap, len(BIG_CAPS))
+    info["concrete"] = dict(b=bi, c=ci, cap=pi)
+    info["steps"] = 3
+    info["show"] = notrace(_native_l3, bi, ci, pi)
+    info["cls"] = "l3/%d/%d/%d" % (bi, ci, pi)
+
+
+def l3(b: int, c: int, cap: int) -> bool:
+    """
+    pre: 0 <= b < len(BIG) and 0 <= c < len(BIG_CUTS) and 0 <= cap < len(BIG_CAPS)
+    post: _
+    """
+    return run("l3", _l3_body, dict(b=b, c=c, cap=cap))
